@@ -216,4 +216,31 @@ CHECKS = {
         "note": COMMON_NOTE + "Theorems are over R / ordered fields; 'unchanged to rounding' is measured, not proved. qha and scipy are external.",
         "technique": "Lean 4 theorems (List.Perm induction, Mathlib Polynomial uniqueness, decide +kernel instances) + metamorphic end-to-end oracle on the real Calculator",
     },
+    "C18": {
+        "text": "Model of cli/static.py (CijModel/Static.lean) statement by statement, polymorphic in the scalar: input columns, linspace grid, "
+                "fit_modulus (qha least squares = C05's exact normal-equation fit, degree 2 in Eulerian strain), -gradient/gradient, the three "
+                "mode branches (v2p1d = C06's v2p on the reversed arrays), density, per-key modulus fit on input02's own volumes, fill (C08/C09 "
+                "model as a parameter), --cellmass, the private VRH block, unit factors, velocities, sampling. Proved over R for all inputs: the "
+                "table factors through these stages; printed V,F,P,density are the mode columns times _to_ang3/_to_ev/_to_gpa/_to_gcm3, each "
+                "converted once (fill contract proved for the fill model); mode none F=input energies; mode volume V=grid, F=the least-squares "
+                "quadratic (minimal residual, exact on quadratic data), P=central/one-sided difference quotients (exact derivative for quadratic-"
+                "in-V data on a uniform grid and for affine data); mode pressure P=P_MIN+j*DELTA_P exactly, V and F by the same rule and the same "
+                "pressures, exact at node pressures and for data cubic in P; every c_ij column is the fit of input02's own (volume,value) pairs "
+                "at the row volume; VRH formulas equal C07's, are evaluated on the filled table, symmetric 6x6, 0<Reuss<=Hill<=Voigt for SPD, "
+                "Reuss = tensor contractions; rho v^2 = K+4G/3, G, K; sqrt(GPa/(g/cm3)) = km/s; g/cm3 factor; --cellmass overrides the header; "
+                "-s without a table is ignored; sampled rows are the multiples of round(DELTA_P_SAMPLE/DELTA_P). PARTIAL: numpy.gradient as a "
+                "derivative, the spline of mode none and the Lagrange interpolation error of mode pressure are numerics outside the theorems: the "
+                "oracle bounds them (C*h^2, C*h at the ends, own 4-point emulation). The real command (click CliRunner, stdout parsed) is compared "
+                "column by column with the model (Float, fit over Rat) on synthetic data: three modes, grids 11-401, own-volume static tables in "
+                "any row order, all nine systems, --cellmass, --delta-p-sample, --v-ratio, plus an out-of-quantifier stream; independent numpy "
+                "oracle: own polyfit in own strains, analytic -dF/dV, CODATA units, own per-row modulus fits, einsum VRH, prefilled-table run "
+                "for -s (Laue-rotation basis), header-mass run for --cellmass, default 6-decimal print.",
+        "note": COMMON_NOTE + "qha's Eulerian strain, numpy.sqrt/linalg.inv, scipy's InterpolatedUnivariateSpline and Python round are parameters "
+                "of the model (run as libm pow, Float.sqrt, Gauss-Jordan, a not-a-knot spline compared with scipy each run, ties-to-even); "
+                "the six unit factors come from an independent pint registry and are compared with typed CODATA-2018 each run; pandas' "
+                "display.precision is raised to 17 in-process to read the table exactly (default print checked separately). Defect found and "
+                "repaired in /repo 34736c8: -s SYSTEM without INPUT02 raised IndexError (site cli/static.py:main:fill_cij-called-without-input02, "
+                "replayed on every run).",
+        "technique": "Lean 4 theorems over R on a scalar-polymorphic model reusing the C05/C06/C07/C09 models and theorems + differential correspondence through the real CLI + independent numpy/einsum/CODATA oracle",
+    },
 }
